@@ -459,7 +459,24 @@ func generate(rng *rand.Rand, sync bool, maxLit uint64, share bool) *Program {
 				}
 			}
 		}
+		forced := ""
+		if vars := cp.vars(); p.ShareBias && len(vars) > 1 {
+			// one read of a variable that is not the first of its data section (its offset depends on the
+			// lengths of the variables before it), sent to output 0
+			dv := vars[1+rng.IntN(len(vars)-1)]
+			a, d := "r0", "r1"
+			items = append(items, Item{Op: "mov", Args: []string{a, "rom:" + dv.Sym}})
+			for k := rng.IntN(len(dv.Vals)); k > 0; k-- {
+				items = append(items, Item{Op: "inc", Args: []string{a}})
+			}
+			items = append(items, Item{Op: "ro2rri", Args: []string{d, a}})
+			forced = d
+		}
 		for k := 0; k < cp.NOut; k++ {
+			if k == 0 && forced != "" {
+				items = append(items, Item{Op: "mov", Args: []string{"o0", forced}})
+				continue
+			}
 			items = append(items, g.arith(rng.IntN(2), "")...)
 			items = append(items, Item{Op: "mov", Args: []string{"o" + strconv.Itoa(k), g.reg()}})
 		}
